@@ -7,6 +7,10 @@
 //
 //	journaldrv run <cases.ndjson> <out.ndjson> <seed>
 //
+// Write faults: during the script steps listed in a case's "fails" every Write
+// of the journal file fails (and writes nothing), during those in "syncfails"
+// every Sync fails; the expected chunks already account for them.
+//
 // The writer reads time.Now(), so every writer script runs inside a
 // testing/synctest bubble (fake clock: Wait(d) is time.Sleep(d*unit), the clock
 // moves only then).  Build with go1.26.8, run with GODEBUG=asynctimerchan=0.
@@ -23,7 +27,10 @@ import (
 	"bytes"
 	"encoding/base64"
 	"encoding/json"
+	"errors"
 	"fmt"
+	"io"
+	"log"
 	"net"
 	"os"
 	"sort"
@@ -70,17 +77,46 @@ type jcase struct {
 	To       int64          `json:"to"`
 	Expect   expect         `json:"expect"`
 	Journals []keyedJournal `json:"journals"`
-	raw      json.RawMessage
-	idx      int
+	// write faults: 1-based script steps during which the journal's Write / Sync fails
+	Fails     []int `json:"fails"`
+	SyncFails []int `json:"syncfails"`
+	raw       json.RawMessage
+	idx       int
 }
 
-// a WriteSyncer that keeps the journal in memory
+// a WriteSyncer that keeps the journal in memory and fails when the script says so
 type memFile struct {
 	bytes.Buffer
-	syncs int
+	syncs     int
+	failWrite bool // every Write fails and writes nothing (disk full)
+	failSync  bool // every Sync fails (the data has been written)
+	refused   int
 }
 
-func (m *memFile) Sync() error { m.syncs++; return nil }
+func (m *memFile) Write(p []byte) (int, error) {
+	if m.failWrite {
+		m.refused++
+		return 0, errors.New("write journal: no space left on device")
+	}
+	return m.Buffer.Write(p)
+}
+
+func (m *memFile) Sync() error {
+	m.syncs++
+	if m.failSync {
+		return errors.New("sync journal: input/output error")
+	}
+	return nil
+}
+
+func has(xs []int, x int) bool {
+	for _, y := range xs {
+		if y == x {
+			return true
+		}
+	}
+	return false
+}
 
 var seed uint64
 var salt uint64 // bumped when a small pool turns out to collide inside the sketch
@@ -131,14 +167,17 @@ type journal struct {
 	entries  []sinkcluster.SinkEntry
 	parseErr string
 	syncs    int
+	refused  int
 }
 
 // runPlan executes a writer script on the real ClusterWriter.  Must be called inside a bubble.
-func runPlan(plan []op, interval int64, unit time.Duration, key string) *journal {
+func runPlan(plan []op, fails, syncFails []int, interval int64, unit time.Duration, key string) *journal {
 	t0 := time.Now()
 	mf := &memFile{}
 	cw := sinkcluster.NewClusterWriter(mf, time.Duration(interval)*unit, ipsetsink.NewIPSetSink(key))
-	for _, o := range plan {
+	for i, o := range plan {
+		// a fault lasts for one script step
+		mf.failWrite, mf.failSync = has(fails, i+1), has(syncFails, i+1)
 		switch o.K {
 		case "add":
 			for i := 0; i < o.V; i++ {
@@ -152,7 +191,7 @@ func runPlan(plan []op, interval int64, unit time.Duration, key string) *journal
 			panic("unknown op " + o.K)
 		}
 	}
-	j := &journal{data: append([]byte(nil), mf.Bytes()...), t0: t0, unit: unit, syncs: mf.syncs}
+	j := &journal{data: append([]byte(nil), mf.Bytes()...), t0: t0, unit: unit, syncs: mf.syncs, refused: mf.refused}
 	for _, line := range bytes.Split(j.data, []byte("\n")) {
 		if len(line) == 0 {
 			continue
@@ -218,6 +257,10 @@ func checkWriter(c *jcase, j *journal, rep *reporter) bool {
 				i+1, float64(e.RecordingStart.Sub(j.t0))/float64(j.unit), float64(e.RecordingEnd.Sub(j.t0))/float64(j.unit), c.Chunks[i].Start, c.Chunks[i].End, j.unit))
 			return false
 		}
+	}
+	if (len(c.Fails) > 0) != (j.refused > 0) {
+		rep.put(c, "C19/journal:writer/write-attempts", fmt.Sprintf("the model has %d script steps with a failing journal write, the writer met %d refused writes", len(c.Fails), j.refused))
+		return false
 	}
 	if j.syncs != j.lines {
 		rep.put(c, "C19/journal:writer/not-synced", fmt.Sprintf("%d chunks written, Sync called %d times", j.lines, j.syncs))
@@ -374,7 +417,7 @@ func qualify(keys []string, blocks []int) bool {
 var secondUnits = []time.Duration{time.Microsecond, time.Millisecond, time.Second, time.Hour + time.Nanosecond}
 
 func planKey(c *jcase) string {
-	b, _ := json.Marshal(c.Plan)
+	b, _ := json.Marshal([]interface{}{c.Plan, c.Fails, c.SyncFails})
 	return strconv.FormatInt(c.Interval, 10) + string(b)
 }
 
@@ -389,6 +432,7 @@ func run(t *testing.T) {
 		vh.Fatal("%v", err)
 	}
 	seed, _ = strconv.ParseUint(args[3], 10, 64)
+	log.SetOutput(io.Discard) // the writer logs every failed write
 	rep := &reporter{w: w}
 	var all []*jcase
 	byPlan := map[string][]*jcase{}
@@ -479,7 +523,7 @@ func run(t *testing.T) {
 										rep.put(cs[0], "C19/journal:writer/panic", fmt.Sprint(v))
 									}
 								}()
-								pr.js = append(pr.js, runPlan(cs[0].Plan, cs[0].Interval, u, maskingKey("k1")))
+								pr.js = append(pr.js, runPlan(cs[0].Plan, cs[0].Fails, cs[0].SyncFails, cs[0].Interval, u, maskingKey("k1")))
 							}()
 						}
 						runs[i] = pr
